@@ -110,7 +110,15 @@ def _match_path(parts, op, value, cur, is_ts):
             # documented for list-valued properties: value is one of the elements
             if isinstance(value, dict):
                 raise Unjudged("contains with a dictionary value")
-            return any((e == value) for e in v) if not is_ts else any(_ts(e) == _ts(value) for e in v)
+            if is_ts:
+                return any(_ts(e) == _ts(value) for e in v)
+            member = any((e == value) for e in v)
+            # the implementation applies the operator element-wise (substring test on string elements); the documentation
+            # does not settle which reading is meant, so only cases where both readings agree are judged
+            elementwise = any((isinstance(e, str) and isinstance(value, str) and value in e) or (not isinstance(e, str) and e == value) for e in v)
+            if member != elementwise:
+                raise Unjudged("contains: membership and element-wise readings differ")
+            return member
         raise Unjudged("contains on a non-list property")
     if isinstance(v, list):
         if op == "!=":
